@@ -23,6 +23,7 @@ type specFuncSig struct {
 }
 
 type Prelude struct {
+	Extends  []string // included whenever one of these is (derived lemmas); never in lemma queries
 	Name     string
 	Text     string
 	Symbols  []string
@@ -181,6 +182,10 @@ func (e *Engine) loadPreludes(dir string) error {
 			if strings.HasPrefix(t, "; requires:") {
 				p.Requires = append(p.Requires, splitProps(strings.TrimPrefix(t, "; requires:"))...)
 			}
+			if strings.HasPrefix(t, "; extends:") {
+				p.Extends = append(p.Extends, splitProps(strings.TrimPrefix(t, "; extends:"))...)
+				p.Requires = append(p.Requires, p.Extends...)
+			}
 			if i := strings.Index(t, ";"); i > 0 {
 				t = strings.TrimSpace(t[:i])
 			}
@@ -300,7 +305,8 @@ func (e *Engine) strID(s string) int {
 }
 
 // preludeFor assembles the preludes whose symbols occur in the query text.
-func (e *Engine) preludeFor(body string) (string, []string) {
+func (e *Engine) preludeFor(body string, opts ...bool) (string, []string) {
+	noExt := len(opts) > 0 && opts[0]
 	need := map[string]bool{"core": true}
 	changed := true
 	for changed {
@@ -314,6 +320,19 @@ func (e *Engine) preludeFor(body string) (string, []string) {
 					need[name] = true
 					changed = true
 					break
+				}
+			}
+		}
+		if !noExt {
+			for name, p := range e.preludes {
+				if need[name] {
+					continue
+				}
+				for _, x := range p.Extends {
+					if need[x] {
+						need[name] = true
+						changed = true
+					}
 				}
 			}
 		}
